@@ -453,6 +453,7 @@ func (reg *Reg) blobPutUploadChunked(ctx context.Context, r ref.Ref, d descripto
 	chunkURL := *putURL
 	retryLimit := 10 // TODO: pull limit from reghttp
 	retryCur := 0
+	stallCur := 0 // consecutive chunk requests that did not advance the upload
 	var err error
 
 	for !finalChunk || chunkStart < bufStart+int64(len(bufBytes)) {
@@ -548,11 +549,21 @@ func (reg *Reg) blobPutUploadChunked(ctx context.Context, r ref.Ref, d descripto
 					retryCur--
 				}
 			}
+			prevStart := chunkStart
 			rangeEnd, err := blobUploadCurBytes(httpResp)
 			if err == nil {
 				chunkStart = rangeEnd + 1
 			} else {
 				chunkStart += int64(chunkSize)
+			}
+			// limit how often a chunk is sent without the registry accepting any of it
+			if chunkStart > prevStart {
+				stallCur = 0
+			} else {
+				stallCur++
+				if stallCur > retryLimit {
+					return d, fmt.Errorf("failed to send blob (chunk), ref %s: upload is not making progress%.0w", r.CommonName(), errs.ErrRetryLimitExceeded)
+				}
 			}
 			location := httpResp.Header.Get("Location")
 			if location != "" {
